@@ -1,0 +1,24 @@
+//go:build verif
+
+package list
+
+import "github.com/anyproto/any-sync/commonspace/object/acl/aclrecordproto"
+
+// Verification seams (build tag `verif`, add-only): the three decoders of the keep-only-ours partial
+// decode, so that the harness can compare the strict fast path with the authoritative full decode
+// on arbitrary bytes.
+
+// VerifKeepIdentityFast is the strict fast path alone (errors where it defers to the full decode).
+func VerifKeepIdentityFast(data []byte, isOurs func(identity []byte) bool) (*aclrecordproto.AclData, error) {
+	return keepIdentityFast(data, isOurs)
+}
+
+// VerifFullDecodeFilter is the generated decoder followed by the in-place accountKeys filter.
+func VerifFullDecodeFilter(data []byte, isOurs func(identity []byte) bool) (*aclrecordproto.AclData, error) {
+	return fullDecodeFilter(data, isOurs)
+}
+
+// VerifUnmarshalKeepIdentity is what decodeAclData calls for a non-validating verifier.
+func VerifUnmarshalKeepIdentity(data []byte, isOurs func(identity []byte) bool) (*aclrecordproto.AclData, error) {
+	return unmarshalAclDataKeepIdentity(data, isOurs)
+}
